@@ -358,13 +358,17 @@ def ob_cast_chains(w):
     types = (DT.INT, DT.BYTE, DT.BOOL)
     for t in types:
         for L_ in (1, 2, 3):
-            for chain in itertools.product(types, repeat=L_):
+          for chain in itertools.product(types, repeat=L_):
+            for with_coerce in ((False, True) if chain[-1] == DT.BYTE else (False,)):
                 n += 1
                 leaf = ast.VariableLookup(ast.Variable('v', t, False), SPAN)
                 tree = leaf; want = x; cur = t
                 try:
                     for t2 in chain:
                         tree = tree.cast(t2); want = conv(want, cur, t2); cur = t2
+                    # the implicit conversion the typechecker applies where an int is expected (byte -> int) after the explicit casts
+                    if with_coerce:
+                        tree = tree.coerce(DT.INT); want = conv(want, cur, DT.INT); cur = DT.INT
                     got = ev(tree, leaf)
                     if tree.type != cur:
                         bad.append({'chain': f'{t} -> ' + ' -> '.join(map(str, chain)), 'problem': f'result type {tree.type}'}); continue
